@@ -212,7 +212,7 @@ def _supporting_facts(run, prog, tier):
     run.ob("E1", f"{mr.qual}:dispatches-resolved-message", ok, loc(mr), "supporting fact: entries are dispatched only after resolve_options()")
     # C15-U1
     from . import C15
-    sub = report.subrun(C15, "C15", prog, tier, run.seed)
+    sub = report.subrun(C15, "C15", prog, tier, run.seed, without=("U6",))
     u1 = [o for o in sub.obs if o.rule == "U1" and ("append-targets-open-collector" in o.construct or "only-queue_send-appends" in o.construct
                                                     or "done-before-flush" in o.construct or "new-only-if-none-or-done" in o.construct)]
     facts["append-only-while-open"] = bool(u1) and all(o.ok for o in u1)
